@@ -11,7 +11,7 @@ ID = "C07"
 LEVEL = "exploration"
 RULE = ("full grid: declared curves d in {no ~C section, 0..6} x data columns c in 1..8 x rows r in {1,2,3,5} x engine "
         "{numpy, normal} x {unwrapped; WRAP YES with c = d and every physical line width 1..c}; plus unwrapped variants "
-        "with blank/comment lines inside the data and ~A followed by another section; random shapes up to 40 rows x 50 "
+        "with blank/comment lines inside the data and ~A followed by another section; DLM COMMA / TAB / padded commas with and without a column of negative values; random shapes up to 40 rows x 50 "
         "columns. distinct = distinct (d, c, r class, engine, wrap width, noise, placement); non-trivial = r*c >= 2 and "
         "the read succeeded")
 ASSUMPTIONS = [
@@ -20,7 +20,7 @@ ASSUMPTIONS = [
 ]
 EXHAUSTIVE = "the (d, c, r, engine, wrap width) grid described in the rule"
 REQUIRED = ["successful_reads", "cells_compared", "cases_more_columns_than_declared", "cases_fewer_columns_than_declared",
-            "cases_wrapped", "cases_no_curve_section", "nan_filled_curves_checked", "unnamed_extra_curves_checked"]
+            "cases_wrapped", "cases_no_curve_section", "nan_filled_curves_checked", "unnamed_extra_curves_checked", "cases_declared_delimiter"]
 SOFT_DEADLINE = {"quick": 90, "thorough": 1200}
 LEVEL_TEXT = ("Exploration with a cell-by-cell oracle: coordinates are encoded in the values, so any shifted, merged or "
               "reordered column is visible wherever it happens.")
@@ -28,8 +28,8 @@ LEVEL_NOTE = "Holds for the shapes enumerated (full small grid) and sampled; tru
 TECHNIQUE = "runtime monitoring: ground-truth-by-construction oracle (cells encode their coordinates) over a full shape grid and random shapes"
 
 
-def cellv(i, j):
-    return "%d.%03d" % (i + 1, j + 1)
+def cellv(i, j, neg=False):
+    return ("-" if neg and j == 1 else "") + "%d.%03d" % (i + 1, j + 1)
 
 
 def grid(tier):
@@ -46,6 +46,13 @@ def grid(tier):
             for r in (1, 2, 3, 5):
                 for engine in ("numpy", "normal"):
                     yield {"d": c, "c": c, "r": r, "engine": engine, "wrap": w, "noise": None, "after": False}
+    for dlm in ("COMMA", "TAB", "COMMA_PADDED"):
+        for d in (None, 1, 3, 4, 6):
+            for c in (1, 2, 3, 4, 5):
+                for r in (1, 3, 25):
+                    for neg in (False, True):
+                        yield {"d": d, "c": c, "r": r, "engine": "numpy" if (d or 0) % 2 else "normal", "wrap": None, "noise": None, "after": r == 3,
+                               "dlm": dlm, "neg": neg}
     for c in (14, 21, 28, 35):
         for w in (7, 5, c):
             yield {"d": c, "c": c, "r": 3, "engine": "numpy", "wrap": w, "noise": None, "after": False}
@@ -65,19 +72,22 @@ def random_case(rng, tier):
         wrap = rng.randint(1, c)
     return {"d": d, "c": c, "r": r, "engine": rng.choice(["numpy", "normal"]), "wrap": wrap,
             "noise": rng.choice([None, None, "blank", "comment"]) if wrap is None else None,
-            "after": rng.random() < 0.3}
+            "after": rng.random() < 0.3, "dlm": rng.choice([None, None, "COMMA", "TAB", "COMMA_PADDED"]) if wrap is None else None,
+            "neg": rng.random() < 0.3}
 
 
 def build(case):
     d, c, r = case["d"], case["c"], case["r"]
-    secs = lastext.std_header(max(d or 0, 0), wrap="YES" if case["wrap"] else "NO")
+    dlm = case.get("dlm")
+    neg = bool(case.get("neg"))
+    secs = lastext.std_header(max(d or 0, 0), wrap="YES" if case["wrap"] else "NO", dlm=dlm.split("_")[0] if dlm else None)
     if d is None:
         secs = [s for s in secs if s["kind"] != "C"]
     else:
         for s in secs:
             if s["kind"] == "C":
                 s["items"] = [["K%d" % j, "U%d" % j, "", "tag%d" % j] for j in range(d)]
-    rows = [[cellv(i, j) for j in range(c)] for i in range(r)]
+    rows = [[cellv(i, j, neg) for j in range(c)] for i in range(r)]
     noise = {}
     if case["noise"] == "blank":
         noise = {"1": [""]}
@@ -94,7 +104,8 @@ def build(case):
         secs.append({"kind": "A", "title": "~ASCII", "rows": rows})
     if case["after"]:
         secs.append({"kind": "P", "title": "~Parameter", "items": [["BHT", "DEGC", "35.5", "temp"]]})
-    return lastext.render({"sections": secs, "eol": "\n", "final_newline": True}, {"sep": " ", "lead": " ", "data_noise": noise})
+    sep = {"COMMA": ",", "TAB": "\t", "COMMA_PADDED": " , "}.get(dlm, " ")
+    return lastext.render({"sections": secs, "eol": "\n", "final_newline": True}, {"sep": sep, "lead": "" if dlm else " ", "data_noise": noise})
 
 
 def run_case(case, ctx):
@@ -140,7 +151,7 @@ def run_case(case, ctx):
                 V("surplus-column-not-unnamed:" + tag, "curve #%d for surplus column is named %r/%r" % (j, cu.original_mnemonic, cu.mnemonic), detail)
         data = np.asarray(cu.data)
         if j < c:
-            want = np.array([float(cellv(i, j)) for i in range(r)])
+            want = np.array([float(cellv(i, j, bool(case.get("neg")))) for i in range(r)])
             ctx.count("cells_compared", r)
             if data.shape != want.shape or data.dtype.kind != "f" or not np.array_equal(data, want):
                 V("cell-displaced:" + tag, "curve #%d holds %s, column %d of the data is %s" % (
@@ -149,7 +160,9 @@ def run_case(case, ctx):
             ctx.count("nan_filled_curves_checked")
             if data.shape != (r,) or data.dtype.kind != "f" or not np.all(np.isnan(data)):
                 V("missing-column-not-nan-filled:" + tag, "declared curve #%d without a column holds %s, expected %d NaN" % (j, _a(data), r), detail)
-    ctx.case_done([d, c, "r1" if r == 1 else "r2-5" if r <= 5 else "r>5", case["engine"], case["wrap"], case["noise"], case["after"]],
+    if case.get("dlm"):
+        ctx.count("cases_declared_delimiter")
+    ctx.case_done([d, c, "r1" if r == 1 else "r2-5" if r <= 5 else "r>5", case["engine"], case["wrap"], case["noise"], case["after"], case.get("dlm"), case.get("neg")],
                   nontrivial=r * c >= 2)
     if case["wrap"] or rel != "eq":
         ctx.sample({"case": case, "text": text, "keys": las.keys()}, limit=4)
